@@ -76,7 +76,14 @@ var gtBigint = map[string]struct {
 }
 
 // math/big value-producing methods (the receiver's old value is irrelevant) and observers
-var gtBigValue = map[string]bool{"Add": true, "Sub": true, "Mul": true, "Or": true}
+var gtBigValue = map[string]bool{"Add": true, "Sub": true, "Mul": true, "Or": true, "Lsh": true}
+
+func gtBigArgs(m string) []string {
+	if m == "Lsh" {
+		return []string{"*big.Int", "uint"}
+	}
+	return []string{"*big.Int", "*big.Int"}
+}
 
 func (t *gotr) leanType(n ast.Node, goType string) string {
 	if l, ok := gtTypes[goType]; ok {
@@ -339,6 +346,10 @@ func (t *gotr) call(v *ast.CallExpr) (string, string) {
 		if t.cur.pkg != "" {
 			key = t.cur.pkg + "." + f.Name
 		}
+		if g, ok := gtBigint[f.Name]; ok && t.cur.pkg == "bigint" {
+			a := t.args(v, g.params)
+			return "(" + strings.TrimSpace("AC.Gen.Bigint."+lowerFirst(f.Name)+" "+strings.Join(a, " ")) + ")", g.result
+		}
 		if g, ok := t.funcs[key]; ok && !g.ptr {
 			a := t.args(v, g.params)
 			return "(← " + strings.TrimSpace(g.lean+" "+strings.Join(a, " ")) + ")", resultType(g)
@@ -385,12 +396,19 @@ func (t *gotr) call(v *ast.CallExpr) (string, string) {
 		}
 		if c, ok := f.X.(*ast.CallExpr); ok && Src(t.fset, c) == "new(big.Int)" {
 			if gtBigValue[f.Sel.Name] {
-				a := t.args(v, []string{"*big.Int", "*big.Int"})
+				a := t.args(v, gtBigArgs(f.Sel.Name))
 				return "(b" + f.Sel.Name + " " + strings.Join(a, " ") + ")", "*big.Int"
 			}
 		}
 		// method of a translated type on a value
 		recv, rty := t.expr(f.X)
+		if rty == "*big.Int" && f.Sel.Name == "BitLen" && len(v.Args) == 0 {
+			return "(bBitLen " + recv + ")", "int"
+		}
+		if rty == "*big.Int" && f.Sel.Name == "Bit" && len(v.Args) == 1 {
+			a := t.args(v, []string{"int"})
+			return "(← bBit " + recv + " " + strings.Join(a, " ") + ")", "int"
+		}
 		if rty == "*big.Int" && f.Sel.Name == "Cmp" {
 			a := t.args(v, []string{"*big.Int"})
 			return "(bCmp " + recv + " " + strings.Join(a, " ") + ")", "int"
@@ -685,7 +703,7 @@ func (t *gotr) stmt(s ast.Stmt, ind string) string {
 			if sel, ok := c.Fun.(*ast.SelectorExpr); ok && gtBigValue[sel.Sel.Name] {
 				if id, ok := sel.X.(*ast.Ident); ok {
 					if ty, ok := t.lookup(id.Name); ok && ty == "*big.Int" {
-						a := t.args(c, []string{"*big.Int", "*big.Int"})
+						a := t.args(c, gtBigArgs(sel.Sel.Name))
 						return ind + id.Name + " := (b" + sel.Sel.Name + " " + strings.Join(a, " ") + ")\n"
 					}
 				}
@@ -918,6 +936,18 @@ func (t *gotr) loop(s ast.Stmt, rest []ast.Stmt, ind string, tail string) string
 						x, _ := t.expr(c.Args[0])
 						fuel = append(fuel, "(len "+x+")")
 						return
+					}
+				}
+				// p.Cmp(x) <= 0 with p growing: fuel bitlen(x) + 1
+				if be, ok := e.(*ast.BinaryExpr); ok && be.Op == token.LEQ && Src(t.fset, be.Y) == "0" {
+					if c, ok := be.X.(*ast.CallExpr); ok && len(c.Args) == 1 {
+						if sel, ok := c.Fun.(*ast.SelectorExpr); ok && sel.Sel.Name == "Cmp" {
+							x, xt := t.expr(c.Args[0])
+							if xt == "*big.Int" && !strings.Contains(x, "←") {
+								fuel = append(fuel, "((bBitLen "+x+") + 1)")
+								return
+							}
+						}
 					}
 				}
 				t.fail(s, "condition of a while loop")
